@@ -37,8 +37,32 @@ m = {
     "notes": "see DESIGN.md; known_findings.json lists recorded (known) and repaired (fixed) defects",
     "not_applicable": [],
 }
+import re
+
+
+def decision_point_theorems(pid):
+    """theorems of coq/Props/<pid>.v that speak about a form flag of Gen/Tables.v (sections *forms*) or a form-indexed definition"""
+    tables = open(os.path.join(VERIF, "coq", "Gen", "Tables.v")).read()
+    flags = set()
+    for sec in re.findall(r"\(\* @@section (\w*forms\w*) \*\)(.*?)\(\* @@end", tables, re.S):
+        flags.update(re.findall(r"Definition (\w+) :", sec[1]))
+    path = os.path.join(VERIF, "coq", "Props", pid + ".v")
+    if not os.path.exists(path):
+        return []
+    out = []
+    for name, stmt in re.findall(r"Theorem (\w+)\s*:(.*?)Proof\.", open(path).read(), re.S):
+        if "_form " in stmt or any(re.search(r"\b%s\b" % f, stmt) for f in flags):
+            out.append(name)
+    return out
+
+
 for pid in claimed:
     P = importlib.import_module("props." + pid.lower())
+    dp = decision_point_theorems(pid)
+    claim = P.CLAIM_TEXT
+    if dp:
+        claim += (" Decision points of the source made explicit (Model/Forms8-10.v and the per-property models; each with a flag the translator "
+                  "regenerates on every run, a theorem under the flag and a refutation of the other form): " + ", ".join(dp) + ".")
     m["checks"].append({
         "property_id": pid,
         "quick_cmd": "bin/check %s quick" % pid,
@@ -46,7 +70,7 @@ for pid in claimed:
         "evidence_file": "evidence/%s.json" % pid,
         "replay_cmd_template": "bin/check %s quick --replay {path}" % pid,
         "engine": "rocq-proof+correspondence",
-        "level_claimed": {"category": "proof", "text": P.CLAIM_TEXT, "design_ref": "DESIGN.md section 5 (%s)" % pid},
+        "level_claimed": {"category": "proof", "text": claim, "design_ref": "DESIGN.md section 5 (%s)" % pid},
         "level_note": P.CLAIM_NOTE,
         "technique": "machine-checked proof in Rocq (Coq 8.16.1) over an executable Gallina model + translator-regenerated constants + differential correspondence check against the Rust crates",
     })
